@@ -44,6 +44,7 @@ def case_2d(log, cplx):
     log.encode(ad.exp_matrix_2D)
     tag = "complex" if cplx else "real"
     rp = (MOD, "replay_2d", {"cplx": cplx})
+    log.register_replay("fallback:replay_2d", rp, _sampler)
 
     def run():
         M = _mat("abcd", cplx)
@@ -84,6 +85,7 @@ def case_eig_post(log, dim):
     ad = sym_module("ekore.anomalous_dimensions")
     log.encode(ad.exp_matrix)
     rp = (MOD, "replay_eig", {"dim": dim})
+    log.register_replay("fallback:replay_eig", rp, _sampler)
 
     def run():
         v = realnp.empty((dim, dim), dtype=object)
